@@ -324,4 +324,48 @@ theorem client_half_established (env : Env) (version : Option Nat) (u chk sid : 
   · intro p hp
     rcases f4.only p hp with h1 | h1 <;> simp [relevant, h1]
 
+theorem ackLookup_none_of_no_type (t : Nat) (key : AckKey) (hk : key.1 = t) :
+    ∀ (l : List (AckKey × Nat)), (∀ e ∈ l, e.1.1 ≠ t) → ackLookup key l = none := by
+  intro l
+  induction l with
+  | nil => intro _; rfl
+  | cons e r ih =>
+    intro h
+    have he := h e List.mem_cons_self
+    unfold ackLookup
+    have : e.1 ≠ key := by intro heq; rw [heq, hk] at he; exact he rfl
+    obtain ⟨k', v⟩ := e
+    simp only [] at this ⊢
+    rw [if_neg this]
+    exact ih (fun x hx => h x (List.mem_cons_of_mem _ hx))
+
+/-- **a SYN packet that arrives when no SYN is waiting for its acknowledgement changes nothing** — whatever it claims (a late or
+    duplicated SYN/ACK, a crafted one with other parameters or another connection signature): the established connection keeps
+    its negotiated parameters, the peer's signature, its counters, everything -/
+theorem late_syn_inert (env : Env) (now : Time) (c : Conn) (p : Packet) (hp : p.type = TYPE_SYN)
+    (hst : c.state = STATE_CONNECTED) (hno : ∀ e ∈ c.ackEvents, e.1.1 ≠ TYPE_SYN) : (c.handle env now p).c = c := by
+  have hl : ackLookup (ackKeyOf p) c.ackEvents = none := ackLookup_none_of_no_type TYPE_SYN _ hp _ hno
+  unfold Conn.handle
+  rw [if_neg (by rw [hst]; decide), if_neg (by rw [hst]; intro h; exact absurd h.1 (by decide))]
+  simp only [hp, if_true]
+  have hps : (c.processSyn env now p).c = c := by
+    unfold Conn.processSyn
+    split
+    · rfl
+    · split
+      · rfl
+      · split
+        · rfl
+        · split
+          · rfl
+          · rw [hl]; rfl
+  unfold R.bind
+  cases he : (c.processSyn env now p).err with
+  | some e => simp only []; exact hps
+  | none =>
+    simp only [hps]
+    split
+    · rw [hl]; rfl
+    · rfl
+
 end Nx.L1
